@@ -80,6 +80,7 @@ class _FullParserOnAnyLineParser(Generic[EXPR], parser_impls.ParserFromTokenPars
 
 _IS_INSIDE_PARENTHESES = 1
 _NEXT_EXPR_ON_ANY_LINE = 2
+_NEXT_EXPR_ON_ANY_LINE__INSIDE_PARENTHESES = 3
 
 
 class _Parser(Generic[EXPR]):
@@ -123,6 +124,8 @@ class _Parser(Generic[EXPR]):
 
         if new_line_ignore is _NEXT_EXPR_ON_ANY_LINE:
             new_line_ignore = None
+        elif new_line_ignore is _NEXT_EXPR_ON_ANY_LINE__INSIDE_PARENTHESES:
+            new_line_ignore = _IS_INSIDE_PARENTHESES
 
         infix_operator_name = self.parse_optional_infix_op_name(new_line_ignore is None,
                                                                 infix_op_names__curr_level)
@@ -162,8 +165,9 @@ class _Parser(Generic[EXPR]):
         operands = [first_operand]
 
         def parse_mandatory_operand_and_append():
-            next_operand = self.parse_w_maybe_infix_ops(_NEXT_EXPR_ON_ANY_LINE,
-                                                        infix_ops_levels)
+            next_operand = self.parse_w_maybe_infix_ops(
+                _NEXT_EXPR_ON_ANY_LINE__INSIDE_PARENTHESES if is_inside_parens else _NEXT_EXPR_ON_ANY_LINE,
+                infix_ops_levels)
             operands.append(next_operand)
 
         parse_mandatory_operand_and_append()
